@@ -419,8 +419,14 @@ def run(prog: Program, col: Collector, tier: str, refs: Optional[Refs] = None):
             builds = [x for st in w.body for x in ast.walk(st) if isinstance(x, ast.Call) and isinstance(x.func, ast.Name) and x.func.id == clsn]
             for b in builds:
                 guards = [a for a in im.module.ancestors(b) if isinstance(a, ast.If) and im.module.enclosing_function(a) is im.node]
-                on_cls = any(any(isinstance(y, ast.Name) and y.id == clsn for y in ast.walk(g.test)) and any(b is y for st in g.body + g.orelse for y in ast.walk(st))
-                             for g in guards)
+                # the branch (of a test on the class) that rebuilds under the enclosing interpretation is the branch that RECORDS the result
+                on_cls = False
+                for g in guards:
+                    if not any(isinstance(y, ast.Name) and y.id == clsn for y in ast.walk(g.test)):
+                        continue
+                    for branch in (g.body, g.orelse):
+                        if any(b is y for st in branch for y in ast.walk(st)) and any(a_ is y for st in branch for y in ast.walk(st) for a_ in appends):
+                            on_cls = True
                 col.check(on_cls, f"{im.fq}::with {selfn}.…: {norm(b)}",
                           f"the term is rebuilt under the enclosing interpretation only when `{clsn}` is one of the ops recorded as atomic",
                           f"`{norm(b)}` runs under the enclosing interpretation for EVERY class: the sub-terms its rules build are interpreted there and never reach this "
